@@ -231,6 +231,17 @@ Theorem C08_load_none_unbound : forall c sc ow c' k,
 Proof. exact load_none_unbound. Qed.
 Print Assumptions C08_load_none_unbound.
 
+(* a module constant under a predicate key, alone or inside a chain (what a combining load makes
+   of `name_N = 4`): every call that resolves to it raises, after the facts and before any
+   definition answers - it never silently answers something else *)
+Theorem C08_noncallable_member_raises : forall f name args nx s e ds d z,
+  reserved name = false ->
+  resolve (e_ctx e) name (length args) = Some ds -> In d ds -> d_const d = Some z ->
+  drain e (query_gen (S f) name args nx s e) =
+  (map (prune nx) (fact_answers (db_get (e_db e) (name, length args)) args s), Raise).
+Proof. exact noncallable_member_raises. Qed.
+Print Assumptions C08_noncallable_member_raises.
+
 (* register_function assigns exactly one key (no chaining) *)
 Theorem C08_register_get : forall c name st d k,
   ctx_get (register c name st d) k =
